@@ -4,8 +4,9 @@ set -e
 cd "$(dirname "$0")"
 export GOFLAGS=-mod=mod GOPROXY=off
 mkdir -p .build evidence replay
+(cd factgen && go build -o ../.build/factgen . )
+./.build/factgen -repo /repo -out lean/YorkieModel/Generated
 (cd lean && lake build 2>&1 | tail -5)
 cp /repo/go.sum harness/go.sum
 (cd harness && go build -tags verif -o ../.build/yk-harness . )
-if [ -d factgen ]; then (cd factgen && go build -o ../.build/factgen . ); fi
 echo setup-ok
